@@ -29,8 +29,8 @@ def mape(y_pred, y_test):
         The MAPE for the given predictions.
 
     """
-    return np.nanmean(100.0 * np.abs(y_test.ravel() - y_pred.ravel())
-                      / np.abs(y_test).ravel())
+    y_pred, y_test = np.ravel(y_pred), np.ravel(y_test)
+    return np.nanmean(100.0 * np.abs(y_test - y_pred) / np.abs(y_test))
 
 
 def bias(y_pred, y_test):
